@@ -34,12 +34,30 @@ def _authenticate(req: Any) -> Any:
     return AuthContext(domain="c37", authenticated=True, principal="u", claims={})
 
 
+class _Quiet:
+    """TestClient whose wsgi.errors stream is kept (Falcon prints the traceback of every 500 there)."""
+
+    def __init__(self, client: Any) -> None:
+        import io
+
+        self.client = client
+        self.errors = io.StringIO()
+
+    def simulate_get(self, *a: Any, **k: Any) -> Any:
+        k.setdefault("extras", {})["wsgi.errors"] = self.errors
+        return self.client.simulate_get(*a, **k)
+
+
 @contextlib.contextmanager
 def pkce_app(prefix: str, resource: str = "https://svc.example/vgi") -> Iterator[Any]:
     """Falcon TestClient over make_wsgi_app with the PKCE browser flow active; OIDC discovery and the
     token exchange (the only outbound HTTP) are replaced."""
+    import logging
+
     import falcon.testing
     from vgi_rpc.http import OAuthResourceMetadata, make_wsgi_app
+
+    logging.getLogger("falcon").setLevel(logging.CRITICAL)  # a ValueError out of the validator is a 500, observed as such
     from vgi_rpc.rpc import RpcServer
 
     resp = type("R", (), {"status_code": 200, "raise_for_status": lambda s: None, "json": lambda s: OIDC})()
@@ -57,7 +75,7 @@ def pkce_app(prefix: str, resource: str = "https://svc.example/vgi") -> Iterator
         ex.return_value = EXCHANGED
         server = RpcServer(C37Service, C37Impl(), enable_describe=True)
         app = make_wsgi_app(server, prefix=prefix, token_key=TOKEN_KEY, authenticate=_authenticate, oauth_resource_metadata=meta, compression_level=None)
-        yield falcon.testing.TestClient(app)
+        yield _Quiet(falcon.testing.TestClient(app))
 
 
 def node_origins(pairs: list[tuple[str, str]], timeout: int = 300) -> list[dict[str, Any]]:
